@@ -142,8 +142,8 @@ def spec_step(stored, n, md, c, replay=False):
     same = [s for s in stored if s[1] == c[1]]
     if same:
         # a replayed commit changes nothing; which payload stays when two different commits claim one log position
-        # is not stated by the property (a merged entry carries its predecessor's timestamp: compare the offset)
-        return (stored if (replay and same[0][0] == c[0]) else None), "drop-duplicate/%s" % fl
+        # is not stated by the property
+        return (stored if replay else None), "drop-duplicate/%s" % fl
     lo = [s for s in stored if s[1] < c[1]]
     hi = [s for s in stored if s[1] > c[1]]
     where = "append" if not hi else ("prepend" if not lo else "insert")
@@ -217,8 +217,9 @@ class Oracle:
                 if c[2] < (now - self.expire) * 1000:
                     self.tags.append("dropped-too-old")
                     continue
-                replay = c in accepted
                 accepted.append(c)
+                # a true replay: no other payload was ever seen for this log position
+                replay = all(a == c for a in accepted if a[1] == c[1])
                 if stored is not None:
                     stored, tag = spec_step(stored, self.n, self.md, c, replay)
                     self.tags.append(tag)
